@@ -84,6 +84,7 @@ struct Ghost {
     last_hk: Option<u64>,        // time of the previous housekeeping tick (coverage counter only)
     heard_at: BTreeMap<u64, u64>, // conn id -> time of the last datagram (>= 2 bytes) the harness delivered on that uplink
     live_at: BTreeMap<u64, u64>,  // conn id -> time of the last datagram that refreshes liveness: non-registration (C09) or REG3
+    probe_armed: BTreeSet<u64>,   // conn ids on which a keepalive armed the RTT probe SINCE the link's last reset / sample
     max_cto: u64,                 // largest connection timeout configured so far in this case (>= the 5000 ms default)
     client_seen: bool,            // a non-empty datagram from the SRT client has been handed to the shell
 }
@@ -1177,6 +1178,13 @@ impl SysComp {
             if torn || attempt {
                 g.win_injected.remove(&c.conn_id);
             }
+            // C14 ghost: a probe is outstanding only if a keepalive armed it since the link's last reset
+            if torn || attempt || regerr_here {
+                g.probe_armed.remove(&c.conn_id);
+            }
+            if kind == Kind::Hk && !pre[i].waiting && c.rtt.waiting_for_keepalive_response && !(torn || attempt) {
+                g.probe_armed.insert(c.conn_id);
+            }
             // C06 / C08: every tear-down (timeout reconnect, failed send, REG_ERR - on a registered link or
             // not) returns the window to 20000 with nothing in flight, logged or queued
             if (torn || regerr_here) && (c.window != 20000 || c.in_flight_packets != 0 || !c.verif_packet_log().is_empty() || c.batch_sender.queued_count() != 0 || c.connected) {
@@ -1452,7 +1460,14 @@ impl SysComp {
                             }
                         }
                     }
-                    _ => mon.fail("C01", "unique-copy-missing", format!("datagram #{tag} is held by links {holders:?} but last_selected is {uniq:?}")),
+                    _ => {
+                        mon.fail("C01", "unique-copy-missing", format!("datagram #{tag} is held by links {holders:?} but last_selected is {uniq:?}"));
+                        // C11: "the previously selected uplink" (the hysteresis reference of the next decision) is
+                        // the uplink that carried the previous datagram, whatever kind of datagram it was
+                        if !cfg.mode.is_classic() {
+                            mon.fail("C11", "anchor-not-on-carrier", format!("datagram #{tag} ({}) went to link index {holders:?} but the shell remembers {uniq:?} as previously selected", if is_data { "data" } else { "control" }));
+                        }
+                    }
                 }
                 // C05: the tracker remembers the link that carries the UNIQUE copy (never a probe link)
                 if let (Some(u), Some(sq)) = (uniq, get_srt_sequence_number(&data))
@@ -1543,6 +1558,9 @@ impl SysComp {
                             };
                             if !(earned || echoed) {
                                 mon.fail("C09", "proof-without-cause", format!("link {} delivery proof {} -> {} without an earned SRTLA ACK or an answered keepalive (type {pt:#x})", c.conn_id, pre[j].proof, c.last_ack_or_rtt_sample_ms));
+                                // C13: the latch's release condition reads this stamp: anything else that refreshes
+                                // it (a cumulative ACK carried by another link, a draining backlog) can un-latch a blind link
+                                mon.fail("C13", "proof-without-cause", format!("link {} delivery proof {} -> {} by a datagram of type {pt:#x} arriving on link {}: neither an SRTLA ACK this link earned nor an answered keepalive on it", c.conn_id, pre[j].proof, c.last_ack_or_rtt_sample_ms, w.links[i].conn_id));
                             }
                             mon.count("proof-stamped");
                         }
@@ -1605,6 +1623,12 @@ impl SysComp {
                             let ok = pre[i].waiting && ts.is_some_and(|ts| now.saturating_sub(ts) > 0 && now.saturating_sub(ts) <= 10_000);
                             if !ok {
                                 mon.fail("C14", "sample-without-probe", format!("keepalive RTT sample taken: waiting={} ts={ts:?} now={now}", pre[i].waiting));
+                            }
+                            // ghost: the probe must have been armed by a keepalive sent since the link's last reset
+                            if !g.probe_armed.remove(&cid) {
+                                mon.fail("C14", "sample-after-reset", format!("link {cid}: a keepalive RTT sample was taken at {now} (echo ts {ts:?}) although no keepalive has armed a probe since the link's last reset: the echo of a keepalive from BEFORE the reset was sampled"));
+                            } else {
+                                mon.count("keepalive-sample-on-armed-probe");
                             }
                         }
                         if c.rtt.waiting_for_keepalive_response && pre[i].waiting {
